@@ -1187,3 +1187,221 @@ def float_selftest(ctx, T, n=4000):
                                   replay=dict(kind='fop', item=it), nofail=True)
     ctx.count('ieee_ops_compared', len(items))
     return bad
+
+
+# ----------------------------------------------------------------------------- delta callbacks (coverage of the zero-delta branches)
+# Values a DeltaCallback64 may return for which OffsetPoint / OffsetOpenPath emit the input vertex itself
+# (|value| <= floating_point_tolerance = 1e-12), and one value just above the threshold
+TINY = [0.0, 1e-13, -1e-13, 1e-12, -1e-12]
+ABOVE_TINY = 2e-12
+SEL = {0: 'nowhere (constant)', 1: 'every vertex', 2: 'vertices selected by a bit mask', 3: 'first vertex', 4: 'last vertex', 5: 'first and last vertex'}
+
+
+def is_tiny(v):
+    return abs(v) <= 1e-12
+
+
+def tiny_raw_cases(rng, n, closed):
+    """RAW cases (plain DoGroupOffset, no callback) whose delta is at / below / just above floating_point_tolerance: the
+    model (select_join BTiny, cap) says every vertex is emitted as it is; tied bit for bit like every other raw curve."""
+    cs = []
+    for i in range(n):
+        jt = rng.below(4)
+        et = 0 if closed else rng.range(1, 4)
+        dl = (TINY + [ABOVE_TINY, -ABOVE_TINY])[i % 7]
+        if dl == 0.0 and (jt == 2 or et == 4):
+            dl = 1e-13            # Round + 0: the step constants are NaN, which the libm table cannot carry
+        S = rng.choice([30, 300, 3000])
+        if closed:
+            ps = flatten_polys(gen_polyset(rng, S, npoly=1, maxholes=1), rng.chance(1, 2))
+        else:
+            ps = [gen_polyline(rng, S, rng.choice([1, 2, 3, 4, 6]))]
+            if rng.chance(1, 3):
+                ps.append(translate(gen_polyline(rng, S, rng.choice([2, 3])), 10 * S, 0))
+        cs.append(dict(ml=rng.choice([1, 2, 5]), at=rng.choice([0, 0.25]), delta=dl, jt=jt, et=et, paths=ps))
+    return cs
+
+
+def gen_cb_case(rng, closed):
+    """one group + a callback description: value z at the selected vertices, d elsewhere"""
+    jt = rng.below(4)
+    S = rng.choice([30, 300, 3000])
+    if closed:
+        et = 0
+        ps = flatten_polys(gen_polyset(rng, S, npoly=rng.choice([1, 1, 2]), maxholes=1), rng.chance(1, 3))
+        if rng.chance(1, 6):
+            ps.append([(5 * S, 5 * S)])                              # a single point in a polygon group
+        d = qdelta(rng.choice([1, 2.25, S / 20, S / 8])) * (1 if rng.chance(2, 3) else -1)
+    else:
+        et = rng.range(1, 4)
+        ps = []
+        x = 0
+        for _ in range(rng.choice([1, 1, 2, 3])):
+            for _try in range(200):
+                n = rng.choice([1, 2, 2, 3, 3, 4, 5, 7])
+                p = gen_polyline(rng, S, n)
+                if not (et == 1 and n >= 3 and not angles_ok(p, True)):
+                    break
+            x0, y0, x1, y1 = bbox([p])
+            ps.append(translate(p, int(x - x0), 0))
+            x += (x1 - x0) + 12 * S
+        d = qdelta(rng.choice([1, 2.25, S / 20, S / 8]))             # open paths: group_delta_ = |delta|
+    sel = rng.choice([0, 1, 1, 2, 2, 2, 3, 3, 4, 4, 5])
+    z = rng.choice(TINY + [0.0, 0.0, 0.0, -d, -d, ABOVE_TINY, d / 2])
+    return dict(ml=rng.choice([1, 2, 5]), at=rng.choice([0, 0.25]), pc=0, rev=int(rng.chance(1, 5)), delta=d, jt=jt, et=et, paths=ps,
+                sel=sel, mask=rng.below(1 << 16), z=z, delta2=rng.choice([3.0, -2.0, 0.25, 10.5]),
+                groups=[dict(jt=jt, et=et, paths=ps)])
+
+
+def cb_spec(sel, mask, z, d):
+    return '%d %d %s %s' % (sel, mask, fhex(z), fhex(d))
+
+
+def rawcb_line(c, sel, mask, z, d):
+    return 'RAWCB %s %s %s %d %d %s' % (cb_spec(sel, mask, z, d), fhex(c['ml']), fhex(c['at']), c['jt'], c['et'], vf.fmt_paths(c['paths']))
+
+
+def parse_rawcb(out):
+    t = out.split()
+    if not t or t[0] != 'OK':
+        return dict(ok=False, raw=out, notrun=(out == NOTRUN))
+    raw, pos = vf.parse_paths(t, 2)
+    assert t[pos] == 'K'
+    n = int(t[pos + 1]); pos += 2
+    calls = []
+    for _ in range(n):
+        pi, ln, j, k = (int(x) for x in t[pos:pos + 4])
+        val = float.fromhex(t[pos + 4]); v = (int(t[pos + 5]), int(t[pos + 6]))
+        cn = int(t[pos + 7]); pos += 8
+        chunk = [(int(t[pos + 2 * i]), int(t[pos + 2 * i + 1])) for i in range(cn)]
+        pos += 2 * cn
+        calls.append(dict(pi=pi, n=ln, j=j, k=k, val=val, v=v, chunk=chunk))
+    return dict(ok=True, raw=raw, calls=calls)
+
+
+def cb_what(c):
+    return ('callback returning %r at %s%s and %r elsewhere, join %s end %s'
+            % (c['z'], SEL[c['sel']], (' (mask 0x%04x, bit j mod 16)' % c['mask']) if c['sel'] == 2 else '', c['delta'], JT[c['jt']], ET[c['et']]))
+
+
+def callback_raw_tie(ctx, T, cases, label, pid_kind, variant='plain'):
+    """DoGroupOffset with a DeltaCallback64 installed (harness RAWCB), judged vertex by vertex:
+      * the constant callback d gives exactly the raw curves of the plain run with delta d (which raw_tie ties to the model);
+      * at a vertex where the callback returns |v| <= 1e-12 the library emits the input vertex and nothing else
+        (clipper.offset.cpp OffsetPoint / the two caps of OffsetOpenPath; a single point is dropped);
+      * at every other vertex it emits what the constant callback with that value emits there: the value returned at a
+        vertex decides the construction at that vertex alone."""
+    lines, idx = [], []
+    for ci, c in enumerate(cases):
+        d, z = c['delta'], c['z']
+        need2 = (c['sel'] != 0) and (not is_tiny(z)) and z != d
+        idx.append((len(lines), need2))
+        lines.append(rawcb_line(c, 0, 0, 0.0, d))
+        lines.append(rawcb_line(c, c['sel'], c['mask'], z, d))
+        lines.append(raw_line(c['ml'], c['at'], d, c['jt'], c['et'], c['paths']))
+        if need2:
+            lines.append(rawcb_line(c, 0, 0, 0.0, z))
+    outs = T.H(lines, variant)
+    nbad = 0
+    for c, (p, need2) in zip(cases, idx):
+        rp = dict(kind=pid_kind, case=c)
+        C, M = parse_rawcb(outs[p]), parse_rawcb(outs[p + 1])
+        P = outs[p + 2]
+        Z = parse_rawcb(outs[p + 3]) if need2 else None
+        if any(bad_answer(ctx, r, label, o, rp) for r, o in ((C, outs[p]), (M, outs[p + 1])) + (((Z, outs[p + 3]),) if need2 else ())):
+            continue
+        if not P.startswith('OK'):
+            bad_answer(ctx, dict(ok=False, notrun=(P == NOTRUN)), label, P, rp)
+            continue
+        ctx.count('callback_raw_cases', 1)
+        ctx.count('evaluations', len(M['calls']))
+        plain_raw, _ = vf.parse_paths(P.split(' V ')[0].split(), 2)
+        if C['raw'] != plain_raw:
+            nbad += 1
+            viol(ctx, 'offset.delta-callback.constant-differs-from-execute',
+                 '%s: with a DeltaCallback64 returning the constant %r the raw offset curves differ from those of delta = %r without a callback '
+                 '(join %s end %s)' % (label, c['delta'], c['delta'], JT[c['jt']], ET[c['et']]), replay=rp)
+            continue
+        seq = lambda R: [(x['pi'], x['n'], x['j'], x['k']) for x in R['calls']]
+        if seq(C) != seq(M) or (Z is not None and seq(Z) != seq(M)):
+            nbad += 1
+            viol(ctx, 'tie-break:offset-callback-call-sequence', '%s: the vertices at which the callback is called depend on the values it returns (%s)'
+                 % (label, cb_what(c)), replay=rp, nofail=True)
+            continue
+        if sum(len(x['chunk']) for x in M['calls']) != sum(len(p_) for p_ in M['raw']):
+            nbad += 1
+            viol(ctx, 'tie-break:offset-callback-chunks', '%s: raw points that belong to no callback call (%s)' % (label, cb_what(c)), replay=rp, nofail=True)
+            continue
+        for i, x in enumerate(M['calls']):
+            if is_tiny(x['val']):
+                ctx.count('callback_zero_vertices', 1)
+                ctx.hist('callback_zero_at', 'single point' if x['n'] == 1 else ('cap' if x['j'] == x['k'] else 'join'))
+                exp = [] if x['n'] == 1 else [x['v']]
+                key = 'offset.delta-callback.zero-delta-vertex-moved'
+                what = ('the callback returned %r (|.| <= floating_point_tolerance) at vertex %d %s of a %d-point path: the library must emit '
+                        'exactly that vertex%s, it emitted %s' % (x['val'], x['j'], x['v'], x['n'], ' (nothing for a single point)' if x['n'] == 1 else '', x['chunk'][:6]))
+            else:
+                ref = C if x['val'] == c['delta'] else Z
+                exp = ref['calls'][i]['chunk']
+                key = 'offset.delta-callback.vertex-not-local'
+                what = ('the callback returned %r at vertex %d %s: the points emitted there (%s) differ from those the constant callback %r '
+                        'gives at the same vertex (%s)' % (x['val'], x['j'], x['v'], x['chunk'][:6], x['val'], exp[:6]))
+            if x['chunk'] != exp:
+                nbad += 1
+                viol(ctx, key, '%s: %s; %s' % (label, what, cb_what(c)), replay=dict(rp, call=i))
+                break
+    return nbad
+
+
+CBX_FLAGS = dict(
+    ov=('offset.execute-callback-overload-differs',
+        'Execute(DeltaCallback64, Paths64&) on a fresh object differs from SetDeltaCallback(cb) + Execute(1.0, paths) on a fresh object '
+        '(or a result container that was not empty when passed in changes the result)'),
+    rep=('offset.delta-callback.execute-twice-differs', 'Execute(cb, paths) a second time on the same object (into a non-empty container) differs from the first'),
+    tr=('offset.delta-callback.tree-differs-from-fresh', 'Execute(1.0, PolyTree64&) on the used object, into a tree that held another result, differs from a fresh object'),
+    tp=('offset.tree-paths-mismatch', 'the polygons of Execute(., PolyTree64&) are not the paths of Execute(., Paths64&)'),
+    hist=('offset.execute-after-callback-overload-differs',
+          'Execute(delta, paths) after Execute(cb, paths) on the same object differs from a fresh object on which the same callback is installed'),
+    pl=('offset.delta-callback.constant-differs-from-execute', 'Execute(cb, paths) with a constant callback d differs from Execute(d, paths)'),
+    id=('offset.delta-callback.zero-delta-changes-region',
+        'a callback returning |v| <= 1e-12 at every vertex of polygon groups must leave every vertex where it is: the result differs from Execute(0.25, paths)'))
+
+
+def cbx_line(c):
+    return 'CBX %s %s %s %d %d %s %s' % (cb_spec(c['sel'], c['mask'], c['z'], c['delta']), fhex(c['ml']), fhex(c['at']), c.get('pc', 0), c.get('rev', 0),
+                                        fhex(c['delta2']), case_groups_str(c))
+
+
+def callback_api_eval(ctx, T, cases, label, pid_kind, variants=('plain',)):
+    """public API with a delta callback (harness CBX): the Execute(cb, paths) overload, result containers that are not empty,
+    repetition, tree overload, a later Execute(delta) on the same object.  Under a sanitizer variant only crashes count."""
+    lines = [cbx_line(c) for c in cases]
+    nbad = 0
+    ref = None
+    for variant in variants:
+        outs = T.H(lines, variant)
+        if ref is None:
+            ref = outs
+        for c, o, o0 in zip(cases, outs, ref):
+            rp = dict(kind=pid_kind, case=c, variant=variant)
+            r = dict(ok=o.startswith('OK'), notrun=(o == NOTRUN))
+            if bad_answer(ctx, r, '%s [%s]' % (label, variant), o, rp):
+                nbad += 1
+                continue
+            ctx.count('evaluations', 1)
+            ctx.count('callback_api_cases', 1)
+            t = o.split()
+            if t[1] != '0':
+                viol(ctx, 'offset.error-code', '%s: ErrorCode %s on valid input' % (label, t[1]), replay=rp)
+            flags = dict(x.split('=') for x in t[2:10])
+            if flags.get('leak') == '1':
+                ctx.count('execute_delta_after_callback_overload_uses_the_callback', 1)
+            for k, (key, what) in CBX_FLAGS.items():
+                if flags.get(k) == '0':
+                    nbad += 1
+                    viol(ctx, key, '%s: %s; %s, then Execute(%r)' % (label, what, cb_what(c), c['delta2']), replay=rp)
+            if o0.startswith('OK') and o.split(' S ')[1] != o0.split(' S ')[1]:
+                nbad += 1
+                viol(ctx, 'offset.delta-callback.repeat-run-differs', '%s: the %s build gives another result than the %s build / the first run; %s'
+                     % (label, variant, variants[0], cb_what(c)), replay=rp)
+    return nbad
